@@ -66,9 +66,9 @@ func brv8(x int) int {
 	return r
 }
 
-var roots [N]int64      // roots[m]: evaluation point of NTT output slot m
-var pw [N][N]int64      // pw[m][j] = roots[m]^j
-var ipw [N][N]int64     // ipw[m][j] = roots[m]^-j / 256
+var roots [N]int64  // roots[m]: evaluation point of NTT output slot m
+var pw [N][N]int64  // pw[m][j] = roots[m]^j
+var ipw [N][N]int64 // ipw[m][j] = roots[m]^-j / 256
 
 func init() {
 	for i := 0; i < 128; i++ {
@@ -255,11 +255,17 @@ func unpackPoly(b []byte, bits uint, f func(v uint64) int64) (p Poly) {
 	return
 }
 
-func PackT1(p *Poly) []byte  { return packPoly(p, 10, func(c int64) uint64 { return uint64(c) }) }
-func PackT0(p *Poly) []byte  { return packPoly(p, 13, func(c int64) uint64 { return uint64(1<<(D-1) - centre(c)) }) }
-func PackEta(p *Poly) []byte { return packPoly(p, 3, func(c int64) uint64 { return uint64(Eta - centre(c)) }) }
-func PackZ(p *Poly) []byte   { return packPoly(p, 20, func(c int64) uint64 { return uint64(Gamma1 - centre(c)) }) }
-func PackW1(p *Poly) []byte  { return packPoly(p, 4, func(c int64) uint64 { return uint64(c) }) }
+func PackT1(p *Poly) []byte { return packPoly(p, 10, func(c int64) uint64 { return uint64(c) }) }
+func PackT0(p *Poly) []byte {
+	return packPoly(p, 13, func(c int64) uint64 { return uint64(1<<(D-1) - centre(c)) })
+}
+func PackEta(p *Poly) []byte {
+	return packPoly(p, 3, func(c int64) uint64 { return uint64(Eta - centre(c)) })
+}
+func PackZ(p *Poly) []byte {
+	return packPoly(p, 20, func(c int64) uint64 { return uint64(Gamma1 - centre(c)) })
+}
+func PackW1(p *Poly) []byte { return packPoly(p, 4, func(c int64) uint64 { return uint64(c) }) }
 
 func UnpackT1(b []byte) Poly { return unpackPoly(b, 10, func(v uint64) int64 { return int64(v) }) }
 func UnpackZ(b []byte) Poly {
@@ -362,11 +368,11 @@ func ExpandMask(rhoP []byte, kappa int) (y [L]Poly) {
 // ---- key generation ----
 
 type Keys struct {
-	PK, SK      []byte
+	PK, SK       []byte
 	Rho, Key, Tr []byte
-	S1          [L]Poly
-	S2, T0, T1  [K]Poly
-	A           [K][L]Poly // NTT domain
+	S1           [L]Poly
+	S2, T0, T1   [K]Poly
+	A            [K][L]Poly // NTT domain
 }
 
 func mulAVec(a *[K][L]Poly, v *[L]Poly) (w [K]Poly) {
@@ -428,12 +434,12 @@ func KeyGen(zeta []byte) *Keys {
 
 // Attempt records why a rejection-loop iteration ended and how close each test came.
 type Attempt struct {
-	Kappa             int
-	ZNorm, R0Norm     int64 // ‖z‖∞ , ‖LowBits(w-cs2)‖∞
-	R1Mismatch        bool  // HighBits(w-cs2) != w1 somewhere
-	CT0Norm           int64
-	Hints             int
-	Reject            string // "", "z", "r0", "ct0", "hints"
+	Kappa         int
+	ZNorm, R0Norm int64 // ‖z‖∞ , ‖LowBits(w-cs2)‖∞
+	R1Mismatch    bool  // HighBits(w-cs2) != w1 somewhere
+	CT0Norm       int64
+	Hints         int
+	Reject        string // "", "z", "r0", "ct0", "hints"
 }
 
 type Skip struct{ Z, R0, CT0, Hints bool } // checks a *dishonest* signer leaves out
@@ -529,7 +535,7 @@ func (k *Keys) Sign(msg []byte, wantReject string) (sig []byte, trace []Attempt)
 		take := at.Reject == ""
 		if wantReject != "" {
 			only := map[string]bool{"z": zBad && !r0Bad && !ct0Bad && !hBad,
-				"r0": !zBad && r0Bad && !ct0Bad && !hBad,
+				"r0":    !zBad && r0Bad && !ct0Bad && !hBad,
 				"hints": !zBad && !r0Bad && !ct0Bad && hBad}[wantReject]
 			take = only
 			if wantReject == "z" && at.ZNorm > Gamma1 { // not encodable in 20 bits
